@@ -455,8 +455,14 @@ impl Family for RepliesThroughTheCompiler {
         if valid {
             // a path made unusable by the substitution (NUL, '/') may legitimately fail to be written
             let paths_plain = decoded.as_ref().map_or(false, |(f, _, _)| f.iter().all(|x| !x.path.is_empty() && x.path.chars().all(|c| c.is_ascii_alphanumeric() || c == '.' || c == '-')));
-            if paths_plain && (o.exit_code != Some(0) || errors > 0) {
+            // (a well-formed reply in which the generator itself reports an error - a diagnostic of level 2 - is a
+            // generator that failed: since d28b340 slicec says so, and C07 demands it)
+            let reports_error = decoded.as_ref().map_or(false, |(_, d, _)| d.iter().any(|x| x.level == 2));
+            if paths_plain && !reports_error && (o.exit_code != Some(0) || errors > 0) {
                 out.violate(format!("{fam}/valid-reply-rejected"), desc());
+            }
+            if reports_error && (o.exit_code == Some(0) || errors == 0) {
+                out.violate(format!("{fam}/error-reported-by-the-generator-ignored"), desc());
             }
         }
         out
